@@ -336,6 +336,9 @@ func (c *c14) RunCase(w *core.Worker, idx int, seed uint64, res *core.CaseResult
 		}{
 			{"unknown path", &sdcpb.GetDataRequest{Name: run.ds.Name, Path: []*sdcpb.Path{mustPb("/nope")}, DataType: sdcpb.DataType_CONFIG, Encoding: sdcpb.Encoding_STRING, Datastore: &sdcpb.DataStore{Type: sdcpb.Type_MAIN}}},
 			{"known path next to an unknown one", &sdcpb.GetDataRequest{Name: run.ds.Name, Path: []*sdcpb.Path{mustPb("/sys"), mustPb("/sys/nope")}, DataType: sdcpb.DataType_CONFIG, Encoding: sdcpb.Encoding_PROTO, Datastore: &sdcpb.DataStore{Type: sdcpb.Type_MAIN}}},
+			{"unknown leaf below a list given without keys", &sdcpb.GetDataRequest{Name: run.ds.Name, Path: []*sdcpb.Path{mustPb("/if/nope")}, DataType: sdcpb.DataType_CONFIG, Encoding: sdcpb.Encoding_STRING, Datastore: &sdcpb.DataStore{Type: sdcpb.Type_MAIN}}},
+			{"unknown leaf below a list entry given with partial keys", &sdcpb.GetDataRequest{Name: run.ds.Name, Path: []*sdcpb.Path{mustPb("/duo[k1=a]/nope"), mustPb("/sys")}, DataType: sdcpb.DataType_CONFIG, Encoding: sdcpb.Encoding_JSON, Datastore: &sdcpb.DataStore{Type: sdcpb.Type_MAIN}}},
+			{"unknown leaf below a nested list without keys", &sdcpb.GetDataRequest{Name: run.ds.Name, Path: []*sdcpb.Path{mustPb("/if[name=e1]/unit/nope")}, DataType: sdcpb.DataType_CONFIG, Encoding: sdcpb.Encoding_PROTO, Datastore: &sdcpb.DataStore{Type: sdcpb.Type_MAIN}}},
 			{"STATE from INTENDED", &sdcpb.GetDataRequest{Name: run.ds.Name, Path: []*sdcpb.Path{mustPb("/sys")}, DataType: sdcpb.DataType_STATE, Encoding: sdcpb.Encoding_STRING, Datastore: &sdcpb.DataStore{Type: sdcpb.Type_INTENDED}}},
 			{"unknown encoding", &sdcpb.GetDataRequest{Name: run.ds.Name, Path: []*sdcpb.Path{mustPb("/sys")}, DataType: sdcpb.DataType_CONFIG, Encoding: sdcpb.Encoding(77), Datastore: &sdcpb.DataStore{Type: sdcpb.Type_MAIN}}},
 		}
